@@ -167,6 +167,7 @@ def run(chk, only=None):
         "histories_by_mode": modes,
         "events_total": sum(len(c["events"]) for c in cases),
         "callers_total": sum(c["callers"] for c in cases),
+        "timeout_wait_s_max": max([c.get("timeout_wait_s", 0) for c in cases] or [0]),
         "timeouts_observed": sum(1 for c in cases for e in c["events"] if e[0] == "T"),
         "max_concurrent_callers": max([c["callers"] for c in cases if c["mode"] == "conc"] or [0]),
         "traces_validated_against_impl": len(cases) - len(mism),
